@@ -5,7 +5,7 @@ From MptV Require Import Base.Mem C15.RefcountModel C15.RefcountSpec C15.Refcoun
   C15.RefcountSteps C15.RefcountOps C15.RefcountRun C15.RefcountRel C15.RefcountFrame.
 Local Open Scope nat_scope.
 
-Ltac inv_ok H := inversion H; subst; clear H.
+Ltac inv_ok H := first [injection H as <- <- | injection H as <-].
 
 Lemma Refines_good s ss : Refines s ss -> Good s. Proof. intros H; apply H. Qed.
 Lemma Refines_hs s ss : Refines s ss -> shs ss = hs s. Proof. intros H; apply H. Qed.
@@ -47,9 +47,9 @@ Proof.
   destruct (m_addref_fr s o s1 r1 A) as [F1 H1].
   destruct (m_addref_res s ss o s1 r1 RF (H3_slot s si o S) A) as [Q1 Q2].
   destruct (r1 =? 0)%N eqn:Z; inv_ok E.
-  - rewrite Z in Q1. destruct (shareable ss o); [discriminate|]. split; [|split; [assumption|discriminate]].
-    apply (Refines_same s s' ss RF G' F1 H1).
-  - rewrite Z in Q1. destruct (shareable ss o); [|discriminate]. split; [|split; [assumption|exact Q2]].
+  - destruct (shareable ss o); [discriminate|]. split; [|split; [assumption|discriminate]].
+    apply (Refines_same s _ ss RF G' F1 H1).
+  - destruct (shareable ss o); [|discriminate]. split; [|split; [assumption|exact Q2]].
     apply (Refines_sput s _ ss d (Some o) RF G' F1). cbn [m_put hs]. rewrite H1. reflexivity.
 Qed.
 
@@ -78,7 +78,7 @@ Proof.
     inv_ok E. split; [|reflexivity].
     destruct (replace_fr s1 d (slot s si) (m_put s3 d (slot s si))) as [F2 H2]; [rewrite T, U; reflexivity|].
     rewrite (sslot_ref s ss RF). apply (Refines_sput s _ ss d _ RF G' (fr_trans _ _ _ F1 F2)). congruence.
-  - inv_ok E. split; [|reflexivity]. apply (Refines_same s s' ss RF G' F1 H1).
+  - inv_ok E. split; [|reflexivity]. apply (Refines_same s _ ss RF G' F1 H1).
 Qed.
 
 (* traits init: the target is empty *)
@@ -94,8 +94,8 @@ Proof.
     destruct (m_addref_fr s o s1 r1 A) as [F1 H1].
     destruct (m_addref_res s ss o s1 r1 RF (H3_slot s si o S) A) as [Q1 _].
     destruct (r1 =? 0)%N eqn:Z; inv_ok E; destruct (shareable ss o); try discriminate; cbn [fst snd]; (split; [|reflexivity]).
-    + apply (Refines_same s s' ss RF G' F1 H1).
+    + apply (Refines_same s _ ss RF G' F1 H1).
     + apply (Refines_sput s _ ss d (Some o) RF G' F1). cbn [m_put hs]. rewrite H1. reflexivity.
   - inv_ok E. cbn [fst snd]. split; [|reflexivity].
-    apply (Refines_sput s s' ss d None RF G' (fr_refl _)). symmetry. apply set_nth_id. exact Hs.
+    apply (Refines_sput s _ ss d None RF G' (fr_refl _)). symmetry. apply set_nth_id. exact Hs.
 Qed.
